@@ -18,8 +18,16 @@ CONFIG = dict(
           "count == 0; the close that brings the count to 0 makes exactly one underlying Close call, other closes none; no "
           "underlying store is closed twice; a close at count 0 returns an error and makes no underlying call; underlying "
           "Drop calls <= 1 since the last open and <= number of opens. Non-trivial = a history in which some name had >= 2 "
-          "overlapping opens and, after they were all closed, was closed once more; distinct by history hash."),
-    assumptions=["TestC27ConcurrentDrops: after every holder closed the shared store, 2-4 holders drop it at the same time over an underlying store whose Drop takes 50-400 microseconds (10 runs per case); only the drop/close counts are judged there", "an OpenDB call whose underlying open fails (injected fault) is not an open for the reference count, but counts as an open attempt for the bound of one underlying drop per open (weaker reading)", "single-threaded histories (races are the subject of C28)",
+          "overlapping opens and, after they were all closed, was closed once more; distinct by history hash. "
+          "Injected fault closeFails: the last Close of a name reaches an underlying Close that returns an error; the open is "
+          "consumed all the same and the failed call is the one underlying close (no retry, whether the caller sees the error is "
+          "not judged), so a further Close must be refused without an underlying call and a re-open must get a fresh database. "
+          "TestC27ConcurrentFirstOpens: 2-3 goroutines are held at a gate inside the underlying OpenDB of one uncached name "
+          "(first open or re-open after a full close, permissive or exclusive backend), released one by one, 0-2 later opens, "
+          "closes in a drawn order plus a drawn over-close: every Close of a successful open succeeds, no underlying Close before "
+          "the last one, the last one makes exactly one, no holder writes to a closed database, the over-close is an error."),
+    assumptions=["TestC27ConcurrentDrops: after every holder closed the shared store, 2-4 holders drop it at the same time over an underlying store whose Drop takes 50-400 microseconds (10 runs per case); only the drop/close counts are judged there", "an OpenDB call whose underlying open fails (injected fault) is not an open for the reference count, but counts as an open attempt for the bound of one underlying drop per open (weaker reading)", "single-threaded histories apart from the harness-owned schedules (races are the subject of C28)",
+                 "TestC27ConcurrentFirstOpens does not require racing first opens to get the identical store nor every underlying database they created to be closed (the code opens one per racing caller and closes only one of them); the 5 s bound while waiting for the goroutines to arrive at the gate only shapes the schedule, no verdict depends on it",
                  "stale handles (of a name that was fully closed and opened again) are not used any more"],
     level_more='Unit TestC27OpenDuringSlowClose: harness-owned schedule, opens of a name while its last Close is held inside a slow underlying Close.',
     units=[
@@ -28,5 +36,7 @@ CONFIG = dict(
         dict(test="TestC27ConcurrentDrops", quick=60, thorough=3200, shards=16),
         # harness-owned schedule: opens of a name while its last Close is held inside a slow underlying Close
         dict(test="TestC27OpenDuringSlowClose", quick=200, thorough=3200, shards=16),
+        # harness-owned schedule: 2-3 first opens of one uncached name held together inside the underlying OpenDB
+        dict(test="TestC27ConcurrentFirstOpens", quick=400, thorough=6400, shards=16),
     ],
 )
